@@ -450,6 +450,8 @@ def run(ctx):
     dim.rule_stochastic(ctx, tu, "C07.DIM")
     from .. import argorder
     argorder.rule(ctx, "C07.ARGS", py_modules=(), cx=True)
+    from .. import lints
+    lints.unused(ctx, "C07.PARAMS", ctx.py, (), ctx.cx)
     from .. import ffi
     ffi.rule_sig(ctx, "C07.FFI")
     ctx.assume("NOT decided: that waiting times and event choices follow the master-equation distribution, the Poisson "
